@@ -5,6 +5,7 @@ package main
 import (
 	"fmt"
 	"go/token"
+	"go/types"
 	"strings"
 
 	"golang.org/x/tools/go/ssa"
@@ -403,4 +404,150 @@ func sameCompare(a, b ssa.Value) bool {
 		return fmt.Sprintf("%p", v)
 	}
 	return fn(x.X) == fn(y.X) && fn(x.Y) == fn(y.Y)
+}
+
+// ------------------------------------------------------------ R-FU-NAL-HEADER-BITS (C06)
+
+func init() {
+	if p := properties["C06"]; p != nil {
+		p.Rules = append(p.Rules, &RuleDoc{Name: "R-FU-NAL-HEADER-BITS", Text: "The NAL header a fragmentation-unit handler rebuilds is, bit for bit, what the sender's header was: H.264 {0, NRI from the FU indicator, type from the FU header} (RFC 6184 5.8); H.265 {F and the low bit of layer id from payload byte 0, type from the FU header in bits 6..1} then payload byte 1 unchanged (RFC 7798 4.4.3); the number of header bytes written, the initial length/offset and the per-fragment offset agree.", Run: ruleFuNalHeaderBits})
+	}
+	addMutants(
+		&Mutant{Prop: "C06", Name: "c06-fu-nri-mask", File: "av/format/rtp/h264_depacketizer.go",
+			Old: "\t\tframe.Payload[0] = (header & 0x60) | (fuHeader & 0x1F)", New: "\t\tframe.Payload[0] = (header & 0x40) | (fuHeader & 0x1F)", Expect: "R-FU-NAL-HEADER-BITS"},
+		&Mutant{Prop: "C06", Name: "c06-h265-fu-type-unshifted", File: "av/format/rtp/h265_depacketizer.go",
+			Old: "\t\tframe.Payload[0] = (payload[0] & 0x81) | (fuHeader&0x3f)<<1", New: "\t\tframe.Payload[0] = (payload[0] & 0x81) | (fuHeader & 0x3f)", Expect: "R-FU-NAL-HEADER-BITS"},
+		&Mutant{Prop: "C06", Name: "c06-h265-fragment-offset", File: "av/format/rtp/h265_depacketizer.go",
+			Old: "\t\t\tframeLen += len(fragment.Payload()) - rawDataOffset", New: "\t\t\tframeLen += len(fragment.Payload()) - 2", Expect: "R-FU-NAL-HEADER-BITS"},
+	)
+}
+
+func ruleFuNalHeaderBits(c *Ctx) {
+	p := c.P
+	n := 0
+	for _, h := range []struct {
+		typ, fn string
+		hdr     int
+		want    []string
+	}{
+		{"h264Depacketizer", "depacketizeFuA", 1, []string{"0 payload[0][6] payload[0][5] payload[1][4] payload[1][3] payload[1][2] payload[1][1] payload[1][0]"}},
+		{"h265Depacketizer", "depacketizeFu", 2, []string{"payload[0][7] payload[2][5] payload[2][4] payload[2][3] payload[2][2] payload[2][1] payload[2][0] payload[0][0]", rangeBits("payload[1]", 7, 0)}},
+	} {
+		fn := p.Func("av/format/rtp", "(*"+h.typ+")."+h.fn)
+		if fn == nil {
+			c.Lost("rtp."+h.typ+"."+h.fn, "FU handler not found")
+			continue
+		}
+		c.touched(fname(fn))
+		n++
+		e := newBitEval(p, fn)
+		// name the bytes of this packet's payload
+		var payload ssa.Value
+		instrs(fn, func(ins ssa.Instruction) {
+			if call, ok := ins.(*ssa.Call); ok && payload == nil && call.Call.StaticCallee() != nil && call.Call.StaticCallee().Name() == "Payload" {
+				if origin(call.Call.Args[0]) == ssa.Value(fn.Params[1]) {
+					payload = call
+				}
+			}
+		})
+		if payload == nil {
+			c.Lost("fu-header:payload@"+fname(fn), "the packet's Payload() call was not found")
+			continue
+		}
+		instrs(fn, func(ins ssa.Instruction) {
+			ld, ok := ins.(*ssa.UnOp)
+			if !ok || ld.Op != token.MUL {
+				return
+			}
+			ia, ok := ld.X.(*ssa.IndexAddr)
+			if !ok || origin(ia.X) != payload {
+				return
+			}
+			if k, ok := constInt(ia.Index); ok {
+				e.names[ld] = fmt.Sprintf("payload[%d]", k)
+			}
+		})
+		// header bytes: stores at constant indices into the emitted frame's fresh buffer
+		stores := map[int64]*ssa.Store{}
+		var frameBuf ssa.Value
+		instrs(fn, func(ins ssa.Instruction) {
+			st, ok := ins.(*ssa.Store)
+			if !ok {
+				return
+			}
+			ia, ok := st.Addr.(*ssa.IndexAddr)
+			if !ok {
+				return
+			}
+			k, ok := constInt(ia.Index)
+			if !ok {
+				return
+			}
+			if bt, isB := st.Val.Type().Underlying().(*types.Basic); !isB || bt.Kind() != types.Uint8 {
+				return
+			}
+			root := origin(ia.X)
+			if f, base, isF := fieldLoad(ia.X); isF && f.Name() == "Payload" {
+				// frame.Payload of the frame built here
+				if _, isAlloc := origin(base).(*ssa.Alloc); isAlloc {
+					root = base
+				}
+			}
+			if frameBuf == nil {
+				frameBuf = root
+			}
+			if root == frameBuf {
+				stores[k] = st
+			}
+		})
+		pos := p.Pos(fn.Pos())
+		ok := len(stores) == h.hdr
+		if !ok {
+			c.Bad("fu-header:count@"+fname(fn), pos, fmt.Sprintf("%d NAL header byte(s) are stored at constant positions, the codec's NAL header has %d", len(stores), h.hdr))
+		}
+		for i, w := range h.want {
+			st := stores[int64(i)]
+			if st == nil {
+				continue
+			}
+			ok = checkBits(c, fmt.Sprintf("fu-header:byte%d@%s", i, fname(fn)), p.InstrPos(st), e.eval(st.Val), 8, w, fmt.Sprintf("rebuilt NAL header byte %d", i)) && ok
+		}
+		// offsets: `len(fragment.Payload()) - K` and `fragment.Payload()[K:]` use the same K = hdr + 1 (FU indicator bytes + FU header byte)
+		ks := map[int64]bool{}
+		instrs(fn, func(ins ssa.Instruction) {
+			switch x := ins.(type) {
+			case *ssa.BinOp:
+				if x.Op == token.SUB {
+					if call, isCall := stripConv(x.X).(*ssa.Call); isCall && calleeName(&call.Call) == "builtin.len" {
+						if pc, isP := origin(call.Call.Args[0]).(*ssa.Call); isP && pc.Call.StaticCallee() != nil && pc.Call.StaticCallee().Name() == "Payload" {
+							if k, isK := evalInt(x.Y); isK {
+								ks[k] = true
+							}
+						}
+					}
+				}
+			case *ssa.Slice:
+				if x.Low != nil && x.High == nil {
+					if call, isCall := origin(x.X).(*ssa.Call); isCall && call.Call.StaticCallee() != nil && call.Call.StaticCallee().Name() == "Payload" {
+						if k, isK := evalInt(x.Low); isK && k > 0 {
+							ks[k] = true
+						}
+					}
+				}
+			}
+		})
+		wantK := int64(h.hdr + 1)
+		if !(len(ks) == 1 && ks[wantK]) {
+			ok = false
+			var got []string
+			for k := range ks {
+				got = append(got, fmt.Sprint(k))
+			}
+			c.Bad("fu-header:offsets@"+fname(fn), pos, fmt.Sprintf("the length computation and the copy of each fragment skip %s byte(s); every fragment carries %d bytes of FU indicator + FU header before the unit's data, so the rebuilt unit has spliced-in header bytes or a wrong length", strings.Join(got, " / "), wantK))
+		}
+		if ok {
+			c.OK("fu-header@"+fname(fn), pos, "rebuilt NAL header bits and fragment offsets")
+		}
+	}
+	c.Floor("FU handlers", n, 2)
 }
